@@ -179,6 +179,11 @@ eng_reinit(void)
                         continue;
                 /* ---- H1 up to a random prefix: jobs are left in flight */
                 int n1 = 1 + (int) rng_below(&r, H1MAX - 1);
+                static struct {
+                        uint32_t id;
+                        IMB_JOB tmpl;
+                } sess[H1MAX];
+                int n_sess = 0;
                 int burst_h1 = (int) rng_below(&r, 4) == 0;
                 g_job_done = h1_done;
                 for (int i = 0; i < n1; i++) {
@@ -202,7 +207,11 @@ eng_reinit(void)
                                 if (mm_get_next_burst(mm, 1, bj) != 1)
                                         break;
                                 item_fill_job(A[i], bj[0]);
-                                mcall("imb_set_session", (void *) imb_set_session, 2, (uint64_t) mm->m, (uint64_t) bj[0]);
+                                uint32_t sid = (uint32_t) mcall("imb_set_session", (void *) imb_set_session, 2, (uint64_t) mm->m, (uint64_t) bj[0]);
+                                if (sid && n_sess < H1MAX) {
+                                        sess[n_sess].id = sid;
+                                        sess[n_sess++].tmpl = *bj[0];
+                                }
                                 mm_submit_burst(mm, 1, bj, 0, 0);
                         } else {
                                 IMB_JOB *j = mm_get_next_job(mm);
@@ -236,6 +245,32 @@ eng_reinit(void)
                                  variant_name(g_cfg_variant[c2]));
                         ev_violation("C15", key, det, NULL);
                 }
+                /* the documented imb_set_session() contract must survive: a ring slot that still carries a session id handed
+                 * out before has its session fields unmodified (the power-up self-test runs through the same ring) */
+                for (int s = 0; s < IMB_MAX_JOBS; s++) {
+                        const IMB_JOB *j = &mm->m->jobs[s];
+                        for (int q = 0; q < n_sess; q++) {
+                                const IMB_JOB *t = &sess[q].tmpl;
+                                if (j->session_id != sess[q].id)
+                                        continue;
+                                if (j->cipher_mode != t->cipher_mode || j->cipher_direction != t->cipher_direction || j->hash_alg != t->hash_alg ||
+                                    j->key_len_in_bytes != t->key_len_in_bytes || j->enc_keys != t->enc_keys || j->dec_keys != t->dec_keys ||
+                                    j->suite_id[0] != t->suite_id[0] || j->suite_id[1] != t->suite_id[1]) {
+                                        snprintf(key, sizeof key, "C15|%s|stale-session-id|slot%s", g_cfgs[c2].name, s < 64 ? "<64" : ">=64");
+                                        snprintf(det, sizeof det,
+                                                 "after re-init %s ring slot %d still carries session id %u (set by imb_set_session for cipher %s hash %s) but "
+                                                 "its session fields now read cipher %d hash %d key_len %llu: an application following the session-id "
+                                                 "contract would submit the wrong operation",
+                                                 pair, s, j->session_id, cipher_name(t->cipher_mode), hash_name(t->hash_alg), (int) j->cipher_mode,
+                                                 (int) j->hash_alg, (unsigned long long) j->key_len_in_bytes);
+                                        ev_violation("C15", key, det, NULL);
+                                        q = n_sess;
+                                        s = IMB_MAX_JOBS;
+                                }
+                                break;
+                        }
+                }
+                cov_count("session_contract_checks", (uint64_t) n_sess);
                 /* empty-state observations: mm_* wrappers assert them against the (reset) model */
                 mm_queue_size(mm);
                 if (mm_flush_job(mm) != NULL || mm_get_completed_job(mm) != NULL) {
